@@ -100,6 +100,8 @@ mod string;
 mod test;
 mod types;
 mod vertical;
+#[cfg(rustfmt_verif)]
+pub mod verif_hooks;
 pub(crate) mod visitor;
 
 /// The various errors that can occur during formatting. Note that not all of
